@@ -140,6 +140,37 @@ def add_block(design, k):
         hw.getSimulator()        # documented way to refresh an existing simulator
 
 
+def customise_generator(gx, dut, rnd):
+    """Edit the emitter tables of generator gx the way a user who wants different text for some class does, then use it."""
+    import py4hw
+    present = []
+
+    def walk(o):
+        for ch in o.children.values():
+            present.append(type(ch))
+            walk(ch)
+    walk(dut)
+    inl = [t for t in present if t in gx.inlinablePrimitives]
+    prim = [t for t in present if t not in gx.inlinablePrimitives and t not in gx.providingBody]
+    kind = rnd.choice(['override', 'override', 'delete', 'add', 'body'])
+    if kind == 'override' and inl:
+        t = rnd.choice(inl)
+        orig = gx.inlinablePrimitives[t]
+        gx.inlinablePrimitives[t] = lambda obj, orig=orig: '// user emitter\n' + orig(obj)
+    elif kind == 'delete' and inl:
+        del gx.inlinablePrimitives[rnd.choice(inl)]
+    elif kind == 'add' and prim:
+        t = rnd.choice(prim)
+        gx.inlinablePrimitives[t] = lambda obj: '// user inlined %s\n' % obj.name
+    else:
+        orig = gx.providingBody[py4hw.Reg]
+        gx.providingBody[py4hw.Reg] = lambda obj, orig=orig: '// user body\n' + orig(obj)
+    try:
+        gx.getVerilogForHierarchy()
+    except Exception:
+        pass
+
+
 def run_history(run, seed, idx, n_ops, case_sink):
     import py4hw
     from py4hw.base import Wire
@@ -163,7 +194,8 @@ def run_history(run, seed, idx, n_ops, case_sink):
     for step in range(n_ops):
         ci = rnd.randrange(ncirc)
         c = circuits[ci]
-        op = rnd.choice(['hier_same', 'hier_fresh', 'hier_fresh', 'hier_sub', 'hier_created', 'module_self', 'module_ancestor', 'module_top', 'clk', 'clk', 'add'])
+        op = rnd.choice(['hier_same', 'hier_fresh', 'hier_fresh', 'hier_sub', 'hier_created', 'module_self', 'module_ancestor', 'module_top', 'clk', 'clk', 'add',
+                         'customise'])
         if last_touch.get(ci) == 'add' and rnd.random() < 0.6:
             op = rnd.choice(['hier_same', 'hier_fresh'])      # regenerate right after a structural change
         if op == 'add' and ops and ops[-1][1] not in ('module_top',) and rnd.random() < 0.5:
@@ -201,6 +233,16 @@ def run_history(run, seed, idx, n_ops, case_sink):
                                       what='history %d step %d: circuit that was generated from simulates differently from its twin' % (idx, step))
                         return
                 last_touch[ci] = 'clk'
+                continue
+            if op == 'customise':
+                # another user's generator object, customised through its own emitter tables (and used): private to that object,
+                # so every other generator -- existing or created later -- still describes the design the same way
+                with muted():
+                    customise_generator(py4hw.VerilogGenerator(c.live.dut), c.live.dut, rnd)
+                run.count('customised_generators')
+                for cj in range(ncirc):
+                    if last_touch.get(cj) == 'gen':
+                        last_touch[cj] = 'other'
                 continue
             if op == 'add':
                 with muted():
